@@ -290,6 +290,22 @@ func cliCheck(res *sched.Result, w *cliWorld) (finds []explore.Finding, outcome 
 			}
 		}
 	}
+	// a second client's writes carry that client's requests (the scratch pools are shared between clients)
+	for _, r := range w.log {
+		if r.Kind != "write2" {
+			continue
+		}
+		okw := false
+		for _, raw := range w.raw2 {
+			if bytes.Equal(raw, r.Data) {
+				okw = true
+			}
+		}
+		if !okw {
+			add("C11/retransmit-bytes-differ", "a write of the second client (%d bytes, id %x) is none of its requests; %s", len(r.Data), r.ID, w.logString())
+			break
+		}
+	}
 	// ---- C12: fallback handler and datagram accounting ----
 	for _, r := range w.log {
 		if r.Kind != "fallback" {
